@@ -140,9 +140,9 @@ Section Inst.
   End Header.
 
   Section Whole.
-    Variable mu : nat -> nat.
-    Hypothesis mu_ok : forall c, 1 <= mu c <= mb.
-    Hypothesis track_pos : forall c, 1 <= hlen + (mb - mu c).
+    Variable mu : nat -> nat -> nat.               (* file size -> file offset -> message size *)
+    Hypothesis mu_ok : forall s c, 1 <= mu s c <= mb.
+    Hypothesis track_pos : forall s c, 1 <= hlen + (mb - mu s c).
     Variable window : nat.
     Notation track_w := (C03Inst.track_w algo mb hash mu).
     Notation blocksW := (C03Inst.blocksW_pipe algo mb hash hlen bdec o fast mu).
@@ -150,7 +150,7 @@ Section Inst.
     Definition found_w (F0 D W : list byte) : Prop :=
       exists bl,
         D = concat (map Pipeline.msg bl) /\
-        Forall2 damaged_ok (Pipeline.sa_gen hash mu penc F0) bl /\
+        Forall2 damaged_ok (Pipeline.sa_gen hash (mu (length F0)) penc F0) bl /\
         Pipeline.track_of bl = track_w F0 /\
         W = F0.
 
@@ -162,9 +162,9 @@ Section Inst.
       intros (bl & -> & FD & TR & ->).
       pose proof (fun junk => PipelineP.sa_file_repairs (option byte) hash pchk bdec penc o fast pcap pwf mb hlen
                   (CodecInst.pipe_chk_enc algo mb) dec_complete (CodecInst.pipe_code_dist algo mb mb255 o) hash_len
-                  (CodecInst.pipe_enc_len algo mb) mu (fun c => proj1 (mu_ok c)) track_pos F0 bl junk FD) as R.
+                  (CodecInst.pipe_enc_len algo mb) (mu (length F0)) (fun c => proj1 (mu_ok (length F0) c)) (track_pos (length F0)) F0 bl junk FD) as R.
       split; [exact (proj1 (R []))|].
-      intros d t e S LE. unfold C03Inst.blocksW_pipe. cbn [fst]. unfold sub in S.
+      intros d t e S LE. unfold C03Inst.blocksW_pipe, zlen. rewrite Nat2Z.id. cbn [fst]. unfold sub in S.
       remember (skipn (e - t) (skipn t d)) as junk eqn:EJ.
       assert (D : skipn t d = track_w F0 ++ junk) by (rewrite EJ, <- S; symmetry; apply firstn_skipn).
       rewrite D, LE, <- TR.
